@@ -12,6 +12,7 @@ import (
 	"net"
 	"os"
 	"runtime"
+	"strings"
 	"sync"
 	"sync/atomic"
 	"time"
@@ -467,6 +468,43 @@ func runC15(c *c15Case, baseline bool) (c15Obs, error) {
 	eut, peer := srv, cli
 	if eutIsClient {
 		eut, peer = cli, srv
+	}
+	if c.Op.Op == "selfmal" {
+		// the honest peer is made to produce the malformed key-exchange message itself (GMSSL only: the fault points are there)
+		if !strings.Contains(c.Role, "gm") {
+			obs.Skipped = "self-produced malformation needs the GMSSL fault points"
+			return obs, nil
+		}
+		site := "cke"
+		if eutIsClient {
+			site = "ske"
+		}
+		how := c.Op.How
+		faultMu.Lock()
+		faultTable[peer] = func(s string, honest []byte) ([]byte, bool) {
+			if s != site || len(honest) < 2 {
+				return nil, false
+			}
+			b := append([]byte(nil), honest...)
+			switch how {
+			case "hi01":
+				b[0] ^= 0x01
+			case "hi80":
+				b[0] ^= 0x80
+			case "hiff":
+				b[0] = 0xff
+			case "lo+1":
+				b[1]++
+			case "lo-1":
+				b[1]--
+			case "zero":
+				b[0], b[1] = 0, 0
+			}
+			return b, true
+		}
+		faultMu.Unlock()
+		gmtls.VerifFault = faultDispatch
+		defer func() { faultMu.Lock(); delete(faultTable, peer); faultMu.Unlock() }()
 	}
 	type res struct {
 		err error
